@@ -255,6 +255,41 @@ let predict (c : string) (obs : string) : string * string * bool =
         else if get "hl=" <> "=" then "BAD:" ^ who ^ "-provider-ammo-of-hcl-with-locals-differs-from-yaml"
         else "ok" in
       (Printf.sprintf "y=%s h== hl==" y, v, y <> "err")
+  | ["lay"; _seed; tok] ->
+      (* the layout of the file as a generated dimension (harness/cmd/hC16/layout.go): key / block order, scalar styles
+         incl. literal block scalars and heredocs, what the file ends with.  Every block scalar / heredoc the printers
+         wrote is listed in bs= as style:text:string; the extracted read_block / heredoc_value (Model/BlockScalar.v)
+         must read each text as that string (the printer is held to the model), and chomp_for must agree that a clip /
+         strip header was admissible; then every layout has to mean what the fixed layout means *)
+      let tree = parse_tree tok in
+      let dy = decode_tree tree in
+      let get = get_field obs in
+      let audit_ok =
+        (match get "bs=" with
+         | "-" -> true
+         | a ->
+             List.for_all (fun e ->
+                 match String.split_on_char ':' e with
+                 | [st; text; want] ->
+                     let text = str_of_hex text and want = str_of_hex want in
+                     (match st with
+                      | "s" -> read_block Strip text = want && chomp_for want = Strip
+                      | "c" -> read_block Clip text = want && chomp_for want = Clip
+                      | "k" -> read_block Keep text = want
+                      | "h" -> heredoc_value text = Some want && read_block Keep text = want
+                      | _ -> false)
+                 | _ -> false) (String.split_on_char ',' a)) in
+      let fields = ["y1="; "y2="; "y3="; "h1="; "h2="] in
+      let v =
+        if not audit_ok then "BAD:bad-case-layout-printer-wrote-a-block-the-model-reads-otherwise"
+        else if List.exists (fun f -> get f = "panic") ("y=" :: fields) then "BAD:panic"
+        else if get "y1=" <> "=" || get "y2=" <> "=" then "BAD:yaml-in-another-layout-differs-from-yaml"
+        else if get "y3=" <> "=" then "BAD:yml-in-another-layout-differs-from-yaml"
+        else if get "h1=" <> "=" then "BAD:hcl-in-another-layout-differs-from-yaml"
+        else if get "h2=" <> "=" then "BAD:hcl-with-locals-in-another-layout-differs-from-yaml"
+        else "ok" in
+      (Printf.sprintf "y=%s y1== y2== y3== h1== h2== bs=%s" dy (get "bs="), v,
+       get "y=" <> "err" || (match dv tree with Ok _ -> true | _ -> false))
   | _ -> ("bad-case", "BAD:bad-case", false)
 
 let () = run_cases predict
